@@ -103,7 +103,7 @@ def affixed(lang):
         out += [w + "-", "-" + w, w + "'", "'" + w, w + "\u2019", w + ".", w + ",", w + "--"]
     # + every non-alphanumeric character written in a literal of the current source (srcmine.py), on a third of the words
     import srcmine
-    extra = [c for c in srcmine.special_chars() if c not in "-'.,\u2019"]
+    extra = [c for c in srcmine.special_chars() + srcmine.special_letters() if c not in "-'.,\u2019"]
     for w in base[::3]:
         for c in extra:
             out += [w + c, c + w]
